@@ -176,6 +176,9 @@ def mkExt (fk : List (UInt64 × List Nat)) : Ext where
   widen b := (Float32.ofBits b).toFloat.toBits
   narrow b := (Float.ofBits b).toFloat32.toBits
   f2i b := (Float.ofBits b).toInt64
+  f2iOk b :=
+    let f := Float.ofBits b
+    f >= -9223372036854775808.0 && f < 9223372036854775808.0
   i2f n := n.toFloat.toBits
   i2f32 n := n.toFloat32.toBits
 
